@@ -45,6 +45,8 @@ def run(F, rep, tier):
     # a variant / blob can only be built from a declaration: a variable that merely has the name is no enum
     import c02
     c02.copy_discipline(F, rep, only_declaration=True)
+    # a function inside its own body has one type: shape requirements on its parameters hold for the recursive call too
+    c02.copy_discipline(F, rep, only_generalised=True)
     # shape checks on a value typed through an annotation need the named declaration to be known at that point
     c03.declared_types_known(F, rep)
 
